@@ -60,6 +60,8 @@ def run_stream(ctx, progs, levels="0,1,2,3", gc=None, passes=None):
             res[int(t[1])]["run"][t[2]] = (t[3], t[4], t[5], t[6])
         elif t[0] == "FRONT":
             res[int(t[1])]["front"] = t[2]
+        elif t[0] == "WIN" and len(t) >= 5:
+            res[int(t[1])].setdefault("win", {})[t[2]] = (int(t[3]), t[4])
     return res
 
 
@@ -182,7 +184,7 @@ def run(ctx):
     proved = ctx.prove("C02", extracted=["ValueConsts", "Opcodes"])
     if ctx.tier == "thorough" and proved:
         ctx.coqchk("C02")
-    ok, out = vlib.coq_make(["Model/EvalObs.vo"])
+    ok, out = vlib.coq_make(["Model/EvalObs.vo", "Model/RegPoolObs.vo"])
     if not ok:
         ctx.broken.append("coq: Model/EvalObs.vo does not build")
         ctx.log(out[-2000:])
@@ -198,6 +200,7 @@ def run(ctx):
     res = run_stream(ctx, progs)
     if res is None:
         return
+    call_windows(ctx, progs, res)
     cases, idx = [], []
     dist = collections.Counter()
     featc = collections.Counter()
@@ -274,7 +277,123 @@ def run(ctx):
     for i in idx[:3]:
         ctx.add_samples([{"program": progs[i], "O0": res[i]["run"]["0"][:3]}])
     if rp is None:
+        pool_tie(ctx)
         run_selfcheck(ctx)
+
+
+def call_windows(ctx, progs, res):
+    """Statistic only: the frame-pushing calls the compiler emitted (hook
+    aelys_backend::verif::record_call) and how many had a register marked in use above their
+    window at emission time.  That is NOT by itself an error: the argument registers of an
+    enclosing call are reserved before they are written (`sw(f2(), f2() + 1)` compiles the first
+    f2() while the register of the second argument is reserved).  The exact condition - no
+    register that is LIVE across a call lies above its window - is checked on the emitted
+    bytecode by the liveness analysis (call_liveness)."""
+    calls = bad = 0
+    for i in range(len(progs)):
+        for lvl, (n, off) in sorted((res.get(i) or {}).get("win", {}).items()):
+            calls += n
+            bad += 1 if off else 0
+    ctx.cov["call_windows"] = {"frame_pushing_calls_emitted": calls, "programs_levels_with_a_reserved_register_above_a_window": bad}
+
+
+def pool_tie(ctx):
+    """Correspondence of Model/RegPool.v with the compiler's own pool functions (hook
+    aelys_backend::verif::pool_script): random pools and operation scripts, every intermediate
+    pool and every result compared.  Register 255 is reserved by the compiler (in use from the
+    start, never handed out): the model's pool is registers 0..254."""
+    import random
+    ok, paths, log = vlib.harness_build(["hx_pool"])
+    if not ok:
+        ctx.broken.append("harness build failed (hx_pool)")
+        ctx.log(log[-3000:])
+        return
+    r = random.Random(ctx.seed * 7919 + 5)
+    n = 400 if ctx.tier == "quick" else 3000
+    scripts = []
+    for k in range(n):
+        shape = r.random()
+        if shape < 0.4:      # compact pool
+            used = list(range(r.randrange(0, 40)))
+        elif shape < 0.5:    # nearly full
+            used = [i for i in range(255) if r.random() < 0.97]
+        elif shape < 0.55:
+            used = list(range(r.randrange(250, 256)))
+        else:                # holes
+            top = r.randrange(1, 60)
+            used = [i for i in range(top) if r.random() < 0.7]
+        ops = []
+        inuse = set(used)
+        for _ in range(r.randrange(1, 12)):
+            c = r.random()
+            if c < 0.3:
+                ops.append("a")
+            elif c < 0.45:
+                ops.append(f"f{r.choice(sorted(inuse)) if inuse and r.random() < 0.8 else r.randrange(255)}")
+            elif c < 0.65:
+                ops.append(f"c{r.choice([1, 2, 3, 4, 8, 1, 2, 255, 0])}")
+            elif c < 0.75:
+                ops.append(f"m{r.randrange(0, 256)},{r.choice([0, 1, 2, 3, 5])}")
+            elif c < 0.9:
+                if inuse:
+                    ops.append(f"l{r.choice(sorted(inuse))},{int(r.random() < 0.6)},{int(r.random() < 0.15)}")
+            else:
+                ops.append("d")
+        if not ops:
+            ops = ["a"]
+        scripts.append((used, ops))
+    d = os.path.join(vlib.CACHE, "progs")
+    os.makedirs(d, exist_ok=True)
+    f = os.path.join(d, f"pool_{os.getpid()}.txt")
+    open(f, "w").write("\n".join(",".join(map(str, u)) + "|" + ";".join(o) for u, o in scripts))
+    rc, out = vlib.sh([paths["hx_pool"], "--file", f], timeout=600)
+    os.remove(f)
+    impl = {}
+    for line in out.splitlines():
+        t = line.split("\t")
+        if len(t) == 2 and t[0].isdigit():
+            impl[int(t[0])] = t[1]
+    if rc != 0 or len(impl) != len(scripts):
+        ctx.broken.append("correspondence C02 (register pool): the hook run failed")
+        ctx.log(out[-1500:])
+        return
+
+    def cop(o):
+        k, a = o[0], [int(x) for x in o[1:].split(",")] if len(o) > 1 else []
+        return {"a": "SAlloc", "f": f"SFree {a[0]}" if a else "", "c": f"SCall {a[0]}" if a else "",
+                "m": f"SFrom {a[0]} {a[1]}" if len(a) > 1 else "", "d": "SDead",
+                "l": f"SLocal {a[0]} {'true' if len(a) > 1 and a[1] else 'false'} {'true' if len(a) > 2 and a[2] else 'false'}" if a else ""}[k]
+
+    def cres(txt):
+        steps = []
+        for st in txt.split(";"):
+            rr, u = st.split(":")
+            steps.append(f"(({rr})%Z, [{'; '.join(x for x in u.split(',') if x and x != '255')}])")
+        return "[" + "; ".join(steps) + "]"
+
+    cases = []
+    for k, (u, o) in enumerate(scripts):
+        if impl[k] == "panic":
+            ctx.violation("c02:pool:panic", "a register-pool function panicked", {"used": u, "ops": o})
+            continue
+        cases.append(f"[{'; '.join(map(str, u))}] [{'; '.join(cop(x) for x in o)}] {cres(impl[k])}")
+    codes, err = vlib.coq_eval_codes("c02pool", "From Aelys Require Import Model.RegPool Model.RegPoolObs.\nOpen Scope nat_scope.", "pool_code", cases, shard=30)
+    if err:
+        ctx.broken.append("correspondence C02 (register pool): model evaluation failed")
+        ctx.log(err[-2000:])
+        return
+    agree = 0
+    for k, code in enumerate(codes):
+        if code == 0:
+            agree += 1
+        else:
+            u, o = scripts[k]
+            ctx.broken.append(f"correspondence C02 (register pool): Model/RegPool.v and the compiler's pool functions differ on pool {u[:20]}.. ops {o} (implementation: {impl[k][:200]})")
+            break
+    ctx.cov["register_pool_tie"] = {"scripts": len(scripts), "agree": agree,
+                                    "operations": dict(collections.Counter(x[0] for _, o in scripts for x in o))}
+    ctx.cov["evaluations"] = ctx.cov.get("evaluations", 0) + len(scripts)
+    ctx.log(f"register pool tie: {agree}/{len(scripts)} scripts agree")
 
 
 def classify(prog, runs, lv):
